@@ -66,14 +66,24 @@ func (p *cprog) setup() *cinst {
 
 func (in *cinst) runOps(t int, ops []Op) {
 	for _, o := range ops {
-		err := in.w.applyConc(o)
+		var err error
 		s := ""
+		func() {
+			defer func() {
+				if r := recover(); r != nil {
+					if _, isRuntimeExit := r.(error); !isRuntimeExit || true {
+						s = fmt.Sprintf("PANIC: %v", r)
+					}
+				}
+			}()
+			err = in.w.applyConc(o)
+		}()
 		if err != nil {
 			s = err.Error()
 		}
 		if t >= 0 {
 			in.errs[t] = append(in.errs[t], s)
-		} else if err != nil {
+		} else if s != "" {
 			in.mu.Lock()
 			in.errs[0] = append(in.errs[0], "suffix:"+s)
 			in.mu.Unlock()
@@ -292,7 +302,7 @@ func runConc(run *mc.Run) int {
 		}
 		var bad []string
 		for o, choices := range st.Outcomes {
-			if _, ok := allowed[o]; ok {
+			if _, ok := allowed[o]; ok && !strings.Contains(o, "PANIC") && !strings.HasPrefix(o, "DEADLOCK") {
 				continue
 			}
 			bad = append(bad, o)
